@@ -128,6 +128,11 @@ def main():
             undec.append(f"unit {n}: {r.reason}")
             continue
         for mod, mm in r.meta["modules"].items():
+            if mm["mode"] == "lost":
+                for fm in mm["fns"]:
+                    if (pid in fm.get("props", []) and n in primary) or (n, mm["file"], mm["header"], fm["fn"]) in needed_imports:
+                        wanted.append((n, mod, mm, fm, dict(status="undecided", errors=[dict(kind="other", title=mm.get("error", "lost anchor"), text="", lines=[], cover=False)])))
+                continue
             if mm["mode"] != "verify":
                 continue
             for fm in mm["fns"]:
